@@ -341,7 +341,7 @@ def _case(draw, pid, tier):
                 "algo": draw(st.sampled_from(algos)),
                 "input": draw(st.integers(0, ninputs - 1)),
                 "kind": draw(st.sampled_from(["reorder", "rename", "outgroup", "scale", "raise",
-                                              "again", "inplace"])),
+                                              "again", "inplace", "copy"])),
                 "param": draw(st.integers(0, 1000)),
                 "order": draw(ORDER),
                 "order2": draw(ORDER),
@@ -1136,6 +1136,9 @@ def derive(spec, kind, param):
     labelled = spec["syn"] is not None
     if kind == "again":
         return new, ident, {"cost": "same", "set": "same"}
+    if kind == "copy":
+        # the same problem presented as a deep copy / a pickle round trip of the caller's object
+        return new, ident, {"cost": "same", "set": "same", "copy_of_object": 1 + param % 2}
     if kind == "reorder":
         new["object"] = canon.nested_reorder(spec["object"], rng)
         new["species"] = canon.nested_reorder(spec["species"], rng)
@@ -1189,7 +1192,7 @@ def derive(spec, kind, param):
         strict = spec["costs"]["floss"] > 0
         return new, ident, {"cost": "same", "set": "same" if strict else "superset"}
     if kind == "scale":
-        k = 2 + param % 2
+        k = [2, 3, 0.5][param % 3]  # halves are exact in binary floating point
         new["costs"] = {n: (v if v == "inf" else v * k) for n, v in spec["costs"].items()}
         return new, ident, {"cost": ("times", k), "set": "same"}
     if kind == "raise":
@@ -1286,6 +1289,17 @@ def do_meta(run, slots, op, idx, regime):
         run.probe("rerun_same_object")
     else:
         slot2 = Slot(new_spec)
+        if expect.get("copy_of_object"):
+            import copy
+            import pickle
+
+            try:
+                slot2.obj = (copy.deepcopy(slot.obj) if expect["copy_of_object"] == 1
+                             else pickle.loads(pickle.dumps(slot.obj)))
+            except Exception as exc:  # noqa: BLE001
+                run.check(False, ("C09",), "C09.input-not-copyable",
+                          f"{where}: copying the caller's input object raised "
+                          f"{type(exc).__name__}: {exc!s:.200}")
         slots.append(slot2)
     outs2 = call_solver(run, slot2, algo, pol, op["order2"], 0, where + " derived")
     if outs2 is None:
@@ -1574,7 +1588,7 @@ def describe(pid):
             "C08": ["order_permuted", "polytomy_input", "polytomy_oracle", "two_generators_alive",
                     "cancelled_midway", "F1_cancel", "F1_throw"],
             "C09": ["order_permuted", "meta_again", "meta_reorder", "meta_rename",
-                    "meta_outgroup", "meta_scale", "meta_raise", "meta_inplace",
+                    "meta_outgroup", "meta_scale", "meta_raise", "meta_inplace", "meta_copy",
                     "fresh_object_compared", "rerun_other_order", "fresh_process"],
             "C10": ["order_permuted", "single_family", "hgt_inf", "transfer_in_optimum"],
         }[pid],
